@@ -117,10 +117,41 @@ def expand(items):
     return alts
 
 
+DEFAULT_FLAGS = 0x60000020      # fill ' ', no alignment / sign / alternate / zero-pad / debug-hex bits
+
+
+def norm_spec(spec, v):
+    """canonical format spec of a value segment: for integers `{:x?}` prints what `{:x}` prints and `{:?}` what `{}`
+    prints (core::fmt's Debug for integers dispatches on the debug-hex flags); default flags are dropped"""
+    parts = spec.split(':')
+    kind, flags, rest = parts[0], None, []
+    for p_ in parts[1:]:
+        if p_.startswith('f'):
+            flags = int(p_[1:], 16)
+        else:
+            rest.append(p_)
+    if isinstance(v, Int) and kind == 'debug':
+        fl = DEFAULT_FLAGS if flags is None else flags
+        if fl & (1 << 25):
+            kind, fl = 'lower_hex', fl & ~(1 << 25)
+        elif fl & (1 << 26):
+            kind, fl = 'upper_hex', fl & ~(1 << 26)
+        else:
+            kind = 'display'
+        flags = fl
+    if flags is not None and flags != DEFAULT_FLAGS:
+        rest.insert(0, 'f%#x' % flags)
+    return ':'.join([kind] + rest)
+
+
 def norm(segs):
-    """merge adjacent literals, drop empty ones"""
+    """merge adjacent literals, drop empty ones, canonical specs"""
     out = []
     for s in segs:
+        if s[0] == 'val':
+            s = ('val', norm_spec(s[1], s[2]), s[2])
+        elif s[0] == 'chars' and all(isinstance(c, Int) and c.concrete for c in s[1]):
+            s = ('lit', ''.join(chr(c.v) for c in s[1]))
         if s[0] == 'lit':
             if not s[1]:
                 continue
